@@ -1,0 +1,45 @@
+//go:build verif
+
+// Copyright 2023 StreamNative, Inc.
+//
+// Licensed under the Apache License, Version 2.0 (the "License");
+// you may not use this file except in compliance with the License.
+// You may obtain a copy of the License at
+//
+//     http://www.apache.org/licenses/LICENSE-2.0
+//
+// Unless required by applicable law or agreed to in writing, software
+// distributed under the License is distributed on an "AS IS" BASIS,
+// WITHOUT WARRANTIES OR CONDITIONS OF ANY KIND, either express or implied.
+// See the License for the specific language governing permissions and
+// limitations under the License.
+
+package kv
+
+import (
+	"context"
+	"log/slog"
+	"time"
+
+	"github.com/pkg/errors"
+
+	time2 "github.com/oxia-db/oxia/common/time"
+)
+
+// VerifTrimNotificationsOnce synchronously runs one round of the notifications trimmer over the
+// given database with the given retention and clock (the real trimmer is a private goroutine on a
+// real-time ticker of at least 500ms). Only compiled with the "verif" build tag.
+func VerifTrimNotificationsOnce(d DB, retention time.Duration, clock time2.Clock) error {
+	impl, ok := d.(*db)
+	if !ok {
+		return errors.New("not a *db")
+	}
+	t := &notificationsTrimmer{
+		ctx:                        context.Background(),
+		kv:                         impl.kv,
+		notificationsRetentionTime: retention,
+		clock:                      clock,
+		log:                        slog.Default(),
+	}
+	return t.trimNotifications()
+}
